@@ -59,6 +59,24 @@ def run(tier, rep):
         total += acc + [r for r in res2 if 'crashed' in r or r['port_err'] == 0]
         if tier == 'quick':
             break
+    # ---- uninitialised automatic variables: neither sanitizer sees them and the optimiser usually papers over them (it
+    #      substitutes the value of another path for the undefined one). On an unoptimised build with every automatic
+    #      variable pre-filled with a byte pattern such a read yields an absurd value, which the comparison with the
+    #      reference model then shows: edge coverage of every background name and the accepted grid on that build
+    resp, dp = dxlib.run_dx('pattern', cfg, 'c08p', 'A', 'ref', api='genbbsub', deadline=deadline, timeout=3000)
+    for r in resp:
+        if 'crashed' in r:
+            rep.violation('uninit:%s:crash' % r['key'], 'explorer child died (%s) on the pattern-initialised build while exploring %s' % (r['crashed'], r['key']))
+            continue
+        if r.get('ref_ier') != 0:
+            continue
+        for v in r['violations']:
+            if v['oracle'] != 'ref' or v.get('replay') == 'NONDETERMINISTIC':
+                continue
+            rep.violation('uninit:%s:%s' % (r['key'], dxlib.why_class(v['why'])),
+                          '%s: on the unoptimised build with pattern-initialised automatic variables the event differs from the reference model (%s, forced=%s): a never-assigned local is read on this path'
+                          % (r['key'], v['why'], v['forced']), dxlib.replay_text(r, v, 'genbbsub'))
+    rep.coverage['pattern_build_executions'] = sum(r.get('executions', 0) for r in resp if 'crashed' not in r)
     # ---- the drivers of the other properties on the sanitizer build (event reuse, API histories, MDL, reader, gA)
     import shutil, tempfile, concurrent.futures as cf, gadata
     dd = vlib.scratch('c08x')
